@@ -365,6 +365,14 @@ impl GlobalScheduler {
         action: Action,
         origin_id: usize,
     ) -> Result<(), SchedulingError> {
+        // A pre-built periodic action carries its own period, which must be
+        // validated here as for the `schedule_periodic_*` methods.
+        if let Some((_, period)) = action.next() {
+            if period.is_zero() {
+                return Err(SchedulingError::NullRepetitionPeriod);
+            }
+        }
+
         // The scheduler queue must always be locked when reading the time,
         // otherwise the following race could occur:
         // 1) this method reads the time and concludes that it is not too late
